@@ -234,8 +234,10 @@ def run_case(rec: Recorder, case: dict[str, typing.Any]) -> None:
     else:
         rec.count("stopped_earlier_than_budget_allows")
         rec.count("stopped_early_with_" + (type(exc).__name__ if exc else "status-" + str(getattr(result, "status", None))) + "_" + case["client"])
-        if not isinstance(exc, MaxRetryError):
-            # budget left, a Location to follow, and the call ended neither with the final response nor by exhausting a budget
+        if exc is not None and not isinstance(exc, MaxRetryError):
+            # budget left, a Location to follow, and the call ended with an error that is not the exhaustion of a budget:
+            # the Location was not resolved / followed.  (Returning a 3xx early is not judged: the statement bounds the
+            # number of redirects from above only, and a stricter client must not raise an alarm.)
             rec.fail(case, "redirect-not-followed", dict(obs, schemeless_start=bool(case.get("schemeless_start")), location=walk[follow]["location"] if follow < len(walk) else None), f"{follow} of {expected_follow} redirects followed, then {exc!r} / status {getattr(result, 'status', None)}")
     # cross-check of the reference resolver against urllib.parse.urljoin (evidence only)
     for w in walk[:6]:
